@@ -1086,6 +1086,14 @@ class Interproc:
                 if len(cands) == 1:
                     post.append((lf, inst_lift, cond))
         # 2. effects
+        # an argument passed by value was evaluated before the call: if it is stated in terms of a place the callee overwrites
+        # (`attr.set_foreground(attr.foreground_color + 8)`), that term names the *new* content afterwards - the argument is
+        # then only known by the interval it had
+        byval = {}
+        for i, (v, tix) in enumerate(ctx.args):
+            if v is not None and v[0] == "n" and v[1] is not None:
+                byval[i] = (term_place(v[1]), st.val_iv(v))
+        stale = set()
         for cid, s in sums:
             m = self.mod.get(cid)
             for i, (v, tix) in enumerate(ctx.args):
@@ -1101,12 +1109,19 @@ class Interproc:
                 pl = ctx.place_of(i)
                 if pl is None:
                     continue
+                probe = [pp for (pp, _) in byval.values()]
+                hit_ = []
                 if m is None or m.wild:
-                    st.kill_under(pl)
+                    hit_ = st.kill_under(pl, probe=probe)
                 elif (i + 1) in m.roots:
-                    st.kill_under(pl, by_call=True)
+                    hit_ = st.kill_under(pl, by_call=True, probe=probe)
                 elif m.names:
-                    st.kill_under(pl, m.names)
+                    hit_ = st.kill_under(pl, m.names, probe=probe)
+                stale |= set(hit_ or ())
+        if stale:
+            for i, (pp, iv_) in byval.items():
+                if pp in stale:
+                    ctx.args[i] = (("iv", iv_[0], iv_[1]), ctx.args[i][1])
         for lf, lift, cond in post:
             self.assume_lifted(an, ctx, lf, lift, cond)
         if len(sums) == 1 and sums[0][1] is not None and sums[0][1].ret is not None:
